@@ -312,7 +312,10 @@ def run_one(tape: Any, cfg: Dict[str, Any], forbid: FrozenSet[str] = frozenset()
                         # such a head is an incomplete request for it, waiting is allowed
                         head = data.split(b'\r\n\r\n', 1)[0]
                         bare_lf = b'\n' in head.replace(b'\r\n', b'')
-                        if not bare_lf and not ref['error'] and ref['requests'] and ref['requests'][0]['complete']:
+                        # (the same leniency exists inside chunked bodies: the request must also be complete for a
+                        # splitter that insists on CRLF)
+                        strict = split_http_message(data, 0) is not None
+                        if not bare_lf and strict and not ref['error'] and ref['requests'] and ref['requests'][0]['complete']:
                             r0 = ref['requests'][0]
                             w.fail('ignored_complete_request', 'waiting',
                                    'a complete request (%s %s) got neither a response nor a close; input=%r'
